@@ -105,6 +105,31 @@ def run_longtrunc(c):
     return {"long": out}
 
 
+def gen_datetime(rng):
+    """calendar abscissae (numpy datetime64 in days / hours) cut at bounds given in a finer unit, between two samples"""
+    n = rng.randint(3, 14)
+    unit, fine, k = rng.choice([("D", "h", 24), ("h", "m", 60), ("s", "ms", 1000)])
+    x0 = rng.randint(19000, 19800)
+    x = [x0]
+    for _ in range(n - 1):
+        x.append(x[-1] + rng.choice([1, 1, 1, 2, 3]))
+
+    def bound(i):
+        r = rng.random()
+        if r < 0.6:
+            return x[i] * k + rng.randint(1, k - 1)          # strictly inside a gap (or beyond the last sample)
+        if r < 0.8:
+            return x[i] * k                                  # exactly on a sample
+        return (x[0] - 2) * k + 7 if rng.random() < 0.5 else (x[-1] + 2) * k + 5
+    i, j = sorted([rng.randrange(n), rng.randrange(n)])
+    lf, rf = bound(i), bound(j)
+    if lf >= rf:
+        lf, rf = x[0] * k, x[-1] * k + 1
+    return {"kind": "truncate", "x": [str(v) for v in x], "y": [str(v) for v in rng.values(n)], "l": str(Fraction(lf, k)),
+            "r": str(Fraction(rf, k)), "lr": False, "rr": False, "dt": [unit, fine, k], "lf": lf, "rf": rf,
+            "layout": "contig,contig,contig", "hist": "none"}
+
+
 def gen_session(rng):
     c = W.gen_init(rng, 4, 10)
     c["kind"] = "session"
@@ -172,6 +197,8 @@ def cases(rng, tier):
         yield gen_longtrunc(rng)
     for _ in range(max(20, na // 10)):
         yield gen_bigint(rng)
+    for _ in range(max(20, na // 10)):
+        yield gen_datetime(rng)
     for _ in range(na):
         yield gen_trunc(rng)
     for _ in range(nb):
@@ -189,6 +216,12 @@ def run_impl(c):
         from traffic_weaver.process import truncate
         x, y = V(c)
         try:
+            if c.get("dt"):
+                unit, fine, k = c["dt"]
+                xd = np.array([int(v) for v in x], dtype=f"datetime64[{unit}]")
+                rx, ry = truncate(xd, S.arr(floats(y)), np.datetime64(c["lf"], fine), np.datetime64(c["rf"], fine), False, False)
+                return {"ok": [[float(v) for v in np.asarray(rx).astype(f"datetime64[{unit}]").astype(np.int64)],
+                               [float(v) for v in ry]]}
             if c.get("bigint"):
                 xi = S.arr([int(v) for v in x], dtype=np.int64)
                 lb = float(Fraction(c["l"])) if c["lf"] else int(Fraction(c["l"]))
